@@ -311,12 +311,25 @@ def changeValue (a : ChangeArgs) : Value :=
   if (Value.sub (provided a) (requested a)).ma.isEmpty = true then Value.sub (provided a) (requested a)
   else ⟨(Value.sub (provided a) (requested a)).coin, posFilter (Value.sub (provided a) (requested a)).ma⟩
 
+/-- a result of `_calc_change` passed the guard `requested < provided`; `<` is `<=` and `!=`, and `<=` is the
+component-wise order for all operands (`Value.le_iff`): what is requested is covered in ADA and in every asset -/
+theorem calcChange_covered (P : Params) (a : ChangeArgs) (cs : List Output) (h : calcChange P a = .ok cs) :
+    (requested a).coin ≤ (provided a).coin ∧
+    ∀ p n, MultiAsset.qty (requested a).ma p n ≤ MultiAsset.qty (provided a).ma p n := by
+  unfold calcChange at h
+  simp only at h
+  split at h
+  · simp at h
+  · rename_i hlt
+    have hl : Value.lt (requested a) (provided a) = true := by simpa using hlt
+    exact ((Value.lt_iff_le_ne _ _).1 hl).1
+
 /-- **calcChange_sum**: the change outputs hold exactly `provided − requested`, for ADA and for every asset -/
 theorem calcChange_sum (P : Params) (a : ChangeArgs) (cs : List Output) (h : calcChange P a = .ok cs) (hw : ArgsWF a)
-    (hcover : ∀ p n, MultiAsset.qty (requested a).ma p n ≤ MultiAsset.qty (provided a).ma p n)
     (hnb : (packTokens P a.addr (changeValue a)).2 = false) :
     sumCoin cs = (provided a).coin - (requested a).coin ∧
     ∀ p n, sumAsset cs p n = MultiAsset.qty (provided a).ma p n - MultiAsset.qty (requested a).ma p n := by
+  have hcover := (calcChange_covered P a cs h).2
   have wp := provided_wf a hw
   have wr := requested_wf a
   unfold calcChange at h
